@@ -19,15 +19,28 @@ class HookLock(object):
     def __init__(self):
         self.hook = None
         self.held = False
-    def __enter__(self):
+    def acquire(self, blocking=True, timeout=-1):
         h, self.hook = self.hook, None
         if h is not None:
             h()
+        if self.held:
+            # a real threading.Lock would block for ever here (it is not re-entrant and nobody releases it)
+            raise LockHeld('the lock is asked for while it is still held: this call would never return')
         self.held = True
+        return True
+    def release(self):
+        self.held = False
+    def locked(self):
+        return self.held
+    def __enter__(self):
+        self.acquire()
         return self
     def __exit__(self, *a):
-        self.held = False
+        self.release()
         return False
+
+class LockHeld(Exception):
+    pass
 
 class RaceImpl(object):
     def __init__(self, mod, clk, heap_install):
